@@ -641,137 +641,141 @@ func TestVerifC01FreeRunning(t *testing.T) {
 	vfSetup(t)
 	c := ev.For("C01")
 	c.Rule("free-running: one reader and one writer goroutine per endpoint, all four at once, wire in random-segmentation mode, generated write-size sequences and 0-200 us pauses; oracle: both streams arrive complete and exact, all goroutines finish, no data race (thorough: -race); non-trivial = both directions carry a multi-frame write")
-	rapid.Check(t, func(rt *rapid.T) {
-		br, cls := vfGenBridge(rt, []int{0, 0, 0, 1, 2})
-		legacy := rapid.Bool().Draw(rt, "legacyBridgeLine")
-		sizes := [2][]int{}
-		pauses := [2][]int{}
-		total := [2]int{}
-		multi := [2]bool{}
-		for d := 0; d < 2; d++ {
-			k := rapid.IntRange(1, 8).Draw(rt, "writes")
-			for i := 0; i < k; i++ {
-				n := rapid.SampledFrom([]int{0, 1, 2, 1426, 1427, 1428, 2854, 4281, 9000}).Draw(rt, "size")
-				if rapid.Bool().Draw(rt, "randSize") {
-					n = rapid.IntRange(0, 5000).Draw(rt, "n")
-				}
-				if br.IAT != iatNone && total[d]+n > 6000 {
-					n = 0
-				}
-				if br.IAT == iatParanoid && total[d]+n > 1500 {
-					n = 0 // paranoid mode sleeps after every (possibly tiny) write
-				}
-				sizes[d] = append(sizes[d], n)
-				pauses[d] = append(pauses[d], rapid.IntRange(0, 200).Draw(rt, "pause"))
-				total[d] += n
-				if n > maxPacketPayloadLength {
-					multi[d] = true
-				}
+	rapid.Check(t, func(rt *rapid.T) { vfFreeRunningCase(rt, c) })
+}
+
+// vfFreeRunningCase is one free-running full-duplex case (also run by C05 as its
+// untampered full-duplex unit).
+func vfFreeRunningCase(rt *rapid.T, c *ev.Collector) {
+	br, cls := vfGenBridge(rt, []int{0, 0, 0, 1, 2})
+	legacy := rapid.Bool().Draw(rt, "legacyBridgeLine")
+	sizes := [2][]int{}
+	pauses := [2][]int{}
+	total := [2]int{}
+	multi := [2]bool{}
+	for d := 0; d < 2; d++ {
+		k := rapid.IntRange(1, 8).Draw(rt, "writes")
+		for i := 0; i < k; i++ {
+			n := rapid.SampledFrom([]int{0, 1, 2, 1426, 1427, 1428, 2854, 4281, 9000}).Draw(rt, "size")
+			if rapid.Bool().Draw(rt, "randSize") {
+				n = rapid.IntRange(0, 5000).Draw(rt, "n")
+			}
+			if br.IAT != iatNone && total[d]+n > 6000 {
+				n = 0
+			}
+			if br.IAT == iatParanoid && total[d]+n > 1500 {
+				n = 0 // paranoid mode sleeps after every (possibly tiny) write
+			}
+			sizes[d] = append(sizes[d], n)
+			pauses[d] = append(pauses[d], rapid.IntRange(0, 200).Draw(rt, "pause"))
+			total[d] += n
+			if n > maxPacketPayloadLength {
+				multi[d] = true
 			}
 		}
-		wseed := rapid.Uint64().Draw(rt, "wireSeed")
-		sf, err := vfServerFactory(br)
-		if err != nil {
-			rt.Fatalf("VIOL[c01-start]: %v", err)
-		}
-		cf, cargs, err := vfClientArgs(br, legacy, br.IAT)
-		if err != nil {
-			rt.Fatalf("VIOL[c01-start]: %v", err)
-		}
-		n := wire.NewFree(wseed)
-		defer n.Shutdown()
-		var conns [2]net.Conn
-		var herr [2]error
-		var wg sync.WaitGroup
-		wg.Add(2)
-		go func() {
-			defer wg.Done()
-			r := drive.Call(30*time.Second, func() error {
-				var e error
-				conns[1], e = sf.WrapConn(n.Conn(wire.B))
-				return e
-			})
-			if r.Failed() {
-				herr[1] = fmt.Errorf("%s", r)
-			} else {
-				herr[1] = r.Err
-			}
-		}()
-		go func() {
-			defer wg.Done()
-			r := drive.Call(30*time.Second, func() error {
-				var e error
-				conns[0], e = cf.Dial("tcp", "192.0.2.1:1", vfDialFn(n.Conn(wire.A)), cargs)
-				return e
-			})
-			if r.Failed() {
-				herr[0] = fmt.Errorf("%s", r)
-			} else {
-				herr[0] = r.Err
-			}
-		}()
-		wg.Wait()
-		if herr[0] != nil || herr[1] != nil {
-			rt.Fatalf("VIOL[c01-handshake-failed]: free-running handshake: client %v, server %v", herr[0], herr[1])
-		}
-		var got [2][]byte // got[d]: bytes of direction d as read by the peer
-		var rerr, werr [2]string
-		var wg2 sync.WaitGroup
-		for d := 0; d < 2; d++ {
-			d := d
-			wg2.Add(2)
-			go func() { // writer of direction d
-				defer wg2.Done()
-				off := 0
-				r := drive.Call(30*time.Second, func() error {
-					for i, sz := range sizes[d] {
-						k, e := conns[d].Write(vfCounterStream(byte(d), off, sz))
-						if e != nil || k != sz {
-							return fmt.Errorf("Write(%d) = %d, %v", sz, k, e)
-						}
-						off += sz
-						time.Sleep(time.Duration(pauses[d][i]) * time.Microsecond)
-					}
-					return nil
-				})
-				if r.Failed() || r.Err != nil {
-					werr[d] = r.String()
-				}
-			}()
-			go func() { // reader of direction d is endpoint 1-d
-				defer wg2.Done()
-				r := drive.Call(30*time.Second, func() error {
-					buf := make([]byte, 4096)
-					for len(got[d]) < total[d] {
-						k, e := conns[1-d].Read(buf)
-						got[d] = append(got[d], buf[:k]...)
-						if e != nil {
-							return e
-						}
-					}
-					return nil
-				})
-				if r.Failed() || r.Err != nil {
-					rerr[d] = r.String()
-				}
-			}()
-		}
-		wg2.Wait()
-		for d := 0; d < 2; d++ {
-			if werr[d] != "" {
-				rt.Fatalf("VIOL[c01-free-write]: writer of direction %s: %s (sizes %v)", wire.Side(d), werr[d], sizes)
-			}
-			if rerr[d] != "" {
-				rt.Fatalf("VIOL[c01-free-read]: reader of direction %s got %d of %d bytes: %s (sizes %v)", wire.Side(d), len(got[d]), total[d], rerr[d], sizes)
-			}
-			if !bytes.Equal(got[d], vfCounterStream(byte(d), 0, total[d])) {
-				rt.Fatalf("VIOL[c01-corrupt]: free-running direction %s: stream differs (sizes %v)", wire.Side(d), sizes)
-			}
-		}
-		cls = append(cls, "free-running")
-		c.Case(ev.Hash(fmt.Sprint(br.Seed, br.IAT, br.Biased, sizes, wseed)), multi[0] && multi[1], cls, func() any {
-			return map[string]any{"driver": "free-running", "iat": br.IAT, "sizes_c2s": sizes[0], "sizes_s2c": sizes[1]}
+	}
+	wseed := rapid.Uint64().Draw(rt, "wireSeed")
+	sf, err := vfServerFactory(br)
+	if err != nil {
+		rt.Fatalf("VIOL[c01-start]: %v", err)
+	}
+	cf, cargs, err := vfClientArgs(br, legacy, br.IAT)
+	if err != nil {
+		rt.Fatalf("VIOL[c01-start]: %v", err)
+	}
+	n := wire.NewFree(wseed)
+	defer n.Shutdown()
+	var conns [2]net.Conn
+	var herr [2]error
+	var wg sync.WaitGroup
+	wg.Add(2)
+	go func() {
+		defer wg.Done()
+		r := drive.Call(30*time.Second, func() error {
+			var e error
+			conns[1], e = sf.WrapConn(n.Conn(wire.B))
+			return e
 		})
+		if r.Failed() {
+			herr[1] = fmt.Errorf("%s", r)
+		} else {
+			herr[1] = r.Err
+		}
+	}()
+	go func() {
+		defer wg.Done()
+		r := drive.Call(30*time.Second, func() error {
+			var e error
+			conns[0], e = cf.Dial("tcp", "192.0.2.1:1", vfDialFn(n.Conn(wire.A)), cargs)
+			return e
+		})
+		if r.Failed() {
+			herr[0] = fmt.Errorf("%s", r)
+		} else {
+			herr[0] = r.Err
+		}
+	}()
+	wg.Wait()
+	if herr[0] != nil || herr[1] != nil {
+		rt.Fatalf("VIOL[c01-handshake-failed]: free-running handshake: client %v, server %v", herr[0], herr[1])
+	}
+	var got [2][]byte // got[d]: bytes of direction d as read by the peer
+	var rerr, werr [2]string
+	var wg2 sync.WaitGroup
+	for d := 0; d < 2; d++ {
+		d := d
+		wg2.Add(2)
+		go func() { // writer of direction d
+			defer wg2.Done()
+			off := 0
+			r := drive.Call(30*time.Second, func() error {
+				for i, sz := range sizes[d] {
+					k, e := conns[d].Write(vfCounterStream(byte(d), off, sz))
+					if e != nil || k != sz {
+						return fmt.Errorf("Write(%d) = %d, %v", sz, k, e)
+					}
+					off += sz
+					time.Sleep(time.Duration(pauses[d][i]) * time.Microsecond)
+				}
+				return nil
+			})
+			if r.Failed() || r.Err != nil {
+				werr[d] = r.String()
+			}
+		}()
+		go func() { // reader of direction d is endpoint 1-d
+			defer wg2.Done()
+			r := drive.Call(30*time.Second, func() error {
+				buf := make([]byte, 4096)
+				for len(got[d]) < total[d] {
+					k, e := conns[1-d].Read(buf)
+					got[d] = append(got[d], buf[:k]...)
+					if e != nil {
+						return e
+					}
+				}
+				return nil
+			})
+			if r.Failed() || r.Err != nil {
+				rerr[d] = r.String()
+			}
+		}()
+	}
+	wg2.Wait()
+	for d := 0; d < 2; d++ {
+		if werr[d] != "" {
+			rt.Fatalf("VIOL[c01-free-write]: writer of direction %s: %s (sizes %v)", wire.Side(d), werr[d], sizes)
+		}
+		if rerr[d] != "" {
+			rt.Fatalf("VIOL[c01-free-read]: reader of direction %s got %d of %d bytes: %s (sizes %v)", wire.Side(d), len(got[d]), total[d], rerr[d], sizes)
+		}
+		if !bytes.Equal(got[d], vfCounterStream(byte(d), 0, total[d])) {
+			rt.Fatalf("VIOL[c01-corrupt]: free-running direction %s: stream differs (sizes %v)", wire.Side(d), sizes)
+		}
+	}
+	cls = append(cls, "free-running")
+	c.Case(ev.Hash(fmt.Sprint(br.Seed, br.IAT, br.Biased, sizes, wseed)), multi[0] && multi[1], cls, func() any {
+		return map[string]any{"driver": "free-running", "iat": br.IAT, "sizes_c2s": sizes[0], "sizes_s2c": sizes[1]}
 	})
 }
 
